@@ -34,6 +34,42 @@ CHECKS = {
  "C08": ("exploration", "end-to-end differential over all 9 parser->encoder pipes, chunked readers and decoder loops, contract monitor in the pipe",
    "Foreign and own source documents (single and concatenated streams) are piped through the real parser and encoder of every pair under varied read schedules; reference decoders on both ends decide equality, also against decode-then-re-encode and the library's own target parser.",
    "Trusts the reference decoders on both sides; skips sources outside the common subset (covered by C04-C06).", "4.C08"),
+ "C09": ("exploration", "online trace checker (push-down contract automaton) behind parsers, Fold and the expansion adapters",
+   "An online contract automaton observes every event the real producers emit for accepted parser inputs (incl. accepted hostile inputs), generated (type,value) folds and adapter expansions; any flag is a violation with the trace prefix as witness.",
+   "Trusts the automaton's reading of the Visitor contract (visitor.go comments); OnByte/OnUint8 both accepted for byte element types.", "4.C09"),
+ "C10": ("exploration", "differential on twin consumers: extended call vs expansion; hook-observed stack depths",
+   "Each extended event in generated contexts is passed to one fresh consumer as extended call and to a twin as its documented expansion; decoded values, delivered basic events and (via hooks) nesting-stack depths must agree, including everything written afterwards.",
+   "Needs the verif depth accessors for the state comparison (value comparison works without); map member order not compared.", "4.C10"),
+ "C11": ("exploration", "round-trip differential: Fold -> (codec) -> Unfold vs original, deep structural comparator; process-isolated refusal probes",
+   "Generated Go (type,value) programs are folded and unfolded by the real code directly and through each codec; a structural comparator decides equality; unsupported and self-referential types are probed in processes of their own (a stack overflow is fatal).",
+   "Trusts the harness comparator (nil==empty, pointer chains ending in nil == nil, interface positions at value level); two recorded known findings.", "4.C11"),
+ "C12": ("exploration", "differential against an independent executable model of the documented fold rules",
+   "The value recorded from the real Fold of generated and swept (type,value) pairs is compared with an independent ~300-line model of the tag rules (tags.go/README).",
+   "Trusts the model; where the documentation is silent the model copies observed behaviour (listed in the evidence assumptions).", "4.C12"),
+ "C13": ("exploration", "differential: generic-unfold vs stream value; typed targets with sentinels vs expected merge; number-conversion sweep",
+   "Streams with every delivery variant are unfolded into interface{} (value compared with the stream's) and, perturbed (random widths, shuffled members, extra members, by-reference strings), into sentinel-filled typed targets (compared with the expected merge).",
+   "Trusts the fold model used to derive streams and the merge rule; one recorded known finding (ubjson uint64).", "4.C13"),
+ "C14": ("exploration", "hostile (stream,target) pairs under panic guard, allocation budget, memory canaries, checkptr (race build) and ASan; abandon-at-every-k + Reset + probe differential",
+   "Mismatching pairs and unbacked announced lengths are unfolded into canary-guarded targets under plain, race+checkptr and (thorough) ASan builds; every abandon point k is followed by Reset/SetTarget and a probe compared with a brand-new unfolder.",
+   "Canaries see only writes near the target; sanitizers only executed paths; allocation budget is a generous linear bound.", "4.C14"),
+ "C15": ("exploration", "scribble-and-compare aliasing monitor, forced-GC differential, checkptr and ASan builds over the real pipelines",
+   "Targets are snapshotted, every reachable buffer is overwritten or reused by same-layout follow-up documents through the same parser/unfolder, and the targets re-compared; pipelines are re-run with GC forced at every event; all pipelines run under race+checkptr and (thorough) ASan.",
+   "A stale zero-copy string is visible only if its memory is overwritten afterwards; the harness reaches caller chunks and parser buffers.", "4.C15"),
+ "C16": ("fault_enumeration", "exhaustive fault-position sweep: failing writer at every write k, failing visitor at every event k",
+   "For each stream/document/value the fault position is enumerated over ALL writes (encoders) resp. ALL events (parsers, Fold, adapters) of the fault-free run; the call sequence must report an error / return the visitor's own error and deliver nothing afterwards.",
+   "Faults are persistent (as the property states) and injected at the io.Writer / Visitor boundary.", "4.C16"),
+ "C17": ("exploration", "history differential: used instance vs fresh instance on a probe; hook assertion of idle stack depths",
+   "Histories of 0..6 complete documents through one encoder / parser / decoder / iterator / unfolder are followed by a probe whose output is compared with a new instance's; hooks assert idle nesting stacks after every document.",
+   "Needs the verif depth accessors for the idle assertion (output comparison works without).", "4.C17"),
+ "C18": ("exploration", "offline checker over the recorded history of Next calls vs reference documents, under varied reader schedules",
+   "Streams of 0..5 documents are read through byte and reader decoders with read sizes from 1 byte to the buffer size and EOF with/after data; the recorded history of Next results and events is checked against the reference values (one value per call, then io.EOF, truncation != EOF).",
+   "Zero-length reads are not issued; JSON values are whitespace-separated as the property states.", "4.C18"),
+ "C19": ("exploration", "Go race detector over barrier-released goroutine rounds + per-goroutine result equality with a sequential run",
+   "4..64 goroutines with their own instances share inputs, values and freshly created types (first-use and cached-use) under GOMAXPROCS 2/16 with injected yields; race-log blocks and any deviation from the sequential results are violations; distinct interleavings are counted.",
+   "A race is reported only if both accesses occur in explored executions; failpoints are not used (no locks or suspension points to widen).", "4.C19"),
+ "C20": ("exploration", "differential: unfolder with key cache vs without vs document value, keys delivered from scribbled buffers",
+   "Key sequences over small alphabets drive hits, misses, evictions and re-insertions for capacities 0..64; each document's target with the cache must equal the target without it and the document's value, with every key's source bytes overwritten after delivery.",
+   "Eviction order is observed (hook) but not an oracle.", "4.C20"),
 }
 
 NOT_YET = {
